@@ -430,10 +430,12 @@ impl StaticFile {
                 FormalArgs::new(vec![("name".into(), None)]),
                 Arc::new(move |s| {
                     let name: String = s.get("name".into())?;
-                    let rname = name.replace(['-', '.'], "_");
+                    let rname = rust_ident(&name);
                     existing_statics
                         .iter()
-                        .find(|(n, _v)| *n == &rname)
+                        .find(|(n, v)| {
+                            *n == &rname && is_url_name_for(v, &name)
+                        })
                         .map(|(_n, v)| {
                             CssString::new(v.into(), Quotes::Double).into()
                         })
@@ -458,16 +460,7 @@ impl StaticFile {
         content: &impl Display,
         suffix: &str,
     ) -> Result<&mut Self> {
-        let mut rust_name =
-            rust_name.replace(|c: char| !c.is_alphanumeric(), "_");
-        if rust_name
-            .as_bytes()
-            .first()
-            .map(|c| c.is_ascii_digit())
-            .unwrap_or(true)
-        {
-            rust_name.insert(0, 'n');
-        }
+        let rust_name = rust_ident(rust_name);
         writeln!(
             self.src,
             "\n/// From {path:?}\
@@ -557,6 +550,34 @@ impl Display for ByteString<'_> {
         }
         out.write_str("\"")
     }
+}
+
+/// The rust identifier used for a static file with the given name.
+fn rust_ident(name: &str) -> String {
+    let mut rust_name = name.replace(|c: char| !c.is_alphanumeric(), "_");
+    if rust_name
+        .as_bytes()
+        .first()
+        .map(|c| c.is_ascii_digit())
+        .unwrap_or(true)
+    {
+        rust_name.insert(0, 'n');
+    }
+    rust_name
+}
+
+/// True if `url` is what a file added as `name` is published as:
+/// either `name` itself, or `name` with a hash before the extension.
+#[cfg(feature = "sass")]
+fn is_url_name_for(url: &str, name: &str) -> bool {
+    url == name
+        || name.rsplit_once('.').map_or(false, |(stem, ext)| {
+            url.strip_prefix(stem)
+                .and_then(|u| u.strip_suffix(ext))
+                .map_or(false, |h| {
+                    h.len() == 10 && h.starts_with('-') && h.ends_with('.')
+                })
+        })
 }
 
 fn name_and_ext(path: &Path) -> Option<(&str, &str)> {
